@@ -43,6 +43,7 @@ int self_id() noexcept;
 // Report a property violation detected in the middle of an execution. Does not return when called
 // from inside a running execution (the worker process records the schedule and exits).
 [[noreturn]] void fail_now( const char* what ) noexcept;
+[[noreturn]] void fail_sig( const char* signature, const char* message ) noexcept;
 
 // Worker-thread phase barriers (three-phase bodies, DESIGN 4.4): everything between
 // explore_begin() and explore_end() is explored; prologue/epilogue run one thread at a time.
